@@ -589,6 +589,7 @@ fn block_iters(b: &Block, sub_delay: u16) -> u64 {
         Block::Raw(v) => (v.len() as u64 + 1) / 2,
         Block::Tick => 5,
         Block::Filler(_) => 4,
+        Block::EdgeExec { .. } => 6,
         Block::Heavy => 2,
         Block::SetVector { .. } => 4,
         Block::LoadEr5(_) => 1,
@@ -661,7 +662,15 @@ pub fn generate(rng: &mut Rng, tier: Tier, frames: bool) -> Scn {
             handlers.push(Handler { vector: v, kind: HandlerKind::Count, at_zero: false });
         }
     }
-    let irq_vectors: Vec<u8> = handlers.iter().take(n_irq_handlers).map(|h| h.vector).collect();
+    // vectors whose table entries the guest may rewrite at run time (never the TRAPA vectors: a trap retargeted to a
+    // handler that itself traps would recurse, one retargeted to the handler at address 0 would be an exit)
+    let table_vectors: Vec<u8> = handlers.iter().take(n_irq_handlers).map(|h| h.vector).collect();
+    let mut irq_vectors = table_vectors.clone();
+    if use_traps && rng.chance(1, 2) {
+        // vectors 9-11 are ordinary request numbers too: the TRAPA handlers also serve requests of their own vector
+        // (a request for vector 8+n outstanding while TRAPA #n executes - inside a handler, say - stays outstanding)
+        irq_vectors.extend_from_slice(&[9, 10, 11]);
+    }
 
     let nblocks = match tier {
         Tier::Quick => rng.range(3, 25),
@@ -704,8 +713,8 @@ pub fn generate(rng: &mut Rng, tier: Tier, frames: bool) -> Scn {
                     Block::OddRte(c)
                 }
             }
-            14 | 15 if dynamic && !irq_vectors.is_empty() => Block::SetVector { vector: *rng.pick(&irq_vectors), handler: rng.below(n_irq_handlers as u64) as usize, top: rng.u8(), odd: false },
-            16 if dynamic && !irq_vectors.is_empty() => Block::SetHandler { vector: *rng.pick(&irq_vectors) as u32, handler: rng.below(n_irq_handlers as u64) as usize },
+            14 | 15 if dynamic && !table_vectors.is_empty() => Block::SetVector { vector: *rng.pick(&table_vectors), handler: rng.below(n_irq_handlers as u64) as usize, top: rng.u8(), odd: false },
+            16 if dynamic && !table_vectors.is_empty() => Block::SetHandler { vector: *rng.pick(&table_vectors) as u32, handler: rng.below(n_irq_handlers as u64) as usize },
             17 if dynamic => Block::LoadEr5(if rng.chance(1, 2) { rng.u32() } else { *rng.pick(&[0u32, 1, 0xffff_ffff, 0x0041_6900]) }),
             18 | 19 if io_stores => {
                 // any I/O register except the timer's own (a running timer would raise requests nobody asked for)
